@@ -261,13 +261,15 @@ CeilDiv(a, b) == (a ++ (b -- One)) // b
 PoolQuote(p) == LET q == st.pools[p]
                     x == IF q.c0 = Tx.gasCoin THEN SellForBuy(q.r0, q.r1, PriceOf) ELSE SellForBuy(q.r1, q.r0, PriceOf)
                 IN x ++ CeilDiv(x, Nat2A(999))
+\* the pool route exists only if the pool holds more base coin than the commission
+PoolCanPay(p) == LET q == st.pools[p] IN PriceOf \prec (IF q.c0 = Base THEN q.r0 ELSE q.r1)
 GasCoinRec == st.coins[Tx.gasCoin]
 \* reserve route for a coin with reserve ratio 100%: exact
 ReserveQuote100 == (PriceOf ** GasCoinRec.vol) // GasCoinRec.res
 CustomGas == Delivered /\ Code = 0 /\ Tx.intact /\ BasePriced /\ ~BaseGas /\ ~IsSellAll /\ Tx.gasCoin \in DOMAIN st.coins /\ Tx.type # "RedeemCheck"
 C27_Cheaper ==
    Clause("C27", "CustomCoinCommissionIsCheaperRoute", CustomGas /\ (GasPools # {} \/ (GasCoinRec.kind = "bancor" /\ GasCoinRec.crr = 100)),
-          /\ \A p \in GasPools : ~PoolHasOrders(p) =>
+          /\ \A p \in GasPools : (~PoolHasOrders(p) /\ PoolCanPay(p)) =>
                 /\ FeeAmount \preceq PoolQuote(p)
                 /\ (Tag("tx_commission_conversion") = "pool" => FeeAmount = PoolQuote(p))
                 /\ (GasCoinRec.kind # "bancor" => FeeAmount = PoolQuote(p))
